@@ -321,7 +321,10 @@ func checkC18(c *Ctx, w *World) {
 			}
 		}
 		c.check(okFirst, "C18.header", "parseT4T7Latency: first match returns", p.pos(parse.Pos()), "the scan moves on only past entries without the prefix (the first prefixed entry decides)", whyFirst)
-		// no entry / both empty ⇒ error
+		// no entry / both empty ⇒ error. Derived, not a condition of its own: with both lists empty the scanned slice is nil
+		// (header-before-trailer above), so no entry is ever tested; a success exit implies a tested, prefixed entry
+		// (success exits above); every exit is a success or an error exit; the scan is bounded. What remains to check here
+		// is that some error exit exists that does not depend on an entry.
 		bothEmpty := cs.And(cs.Not(A("hdrNonEmpty")), cs.Not(A("trlNonEmpty")))
 		errReach := cs.False()
 		for _, vr := range cs.VirtualReturns() {
@@ -329,8 +332,12 @@ func checkC18(c *Ctx, w *World) {
 				errReach = or(errReach, vr.Cond)
 			}
 		}
-		imp, _ := cs.Implies(bothEmpty, cs.OnlyNamed(errReach))
-		c.check(imp, "C18.header", "parseT4T7Latency: absent ⇒ error", p.pos(parse.Pos()), "no server-timing values in header and trailer ⇒ an error is returned", "absent server-timing metadata does not yield an error")
+		boundedScan := scan != nil
+		if scan != nil {
+			k, _ := scan.boundedKind()
+			boundedScan = k != ""
+		}
+		c.check(okSel && okSucc && okErr && boundedScan && cs.Satisfiable(and(bothEmpty, errReach)), "C18.header", "parseT4T7Latency: absent ⇒ error", p.pos(parse.Pos()), "no server-timing values in header and trailer ⇒ nothing is scanned, no success exit is reachable, an error exit is", "absent server-timing metadata does not yield an error")
 		// panic-capable indexing only by range counters
 		okIdx := true
 		eachInstr(parse, func(in ssa.Instruction) {
